@@ -4,7 +4,7 @@
 #  1. the demonstration passes on the pristine tree, 2. fails with the patch applied,
 #  3. the full unedited suite passes with the patch applied (demo removed). The worktree is removed afterwards.
 set -u
-src="$1"; out="$2"
+src="$(cd "$1" && pwd)"; out="$2"; here="$(cd "$(dirname "$0")" && pwd)"
 export GOPROXY=off GOSUMDB=off GOTOOLCHAIN=local; unset GOFLAGS
 wt=$(mktemp -d /tmp/val.XXXXXX); rmdir "$wt"
 git -C /repo worktree add --detach "$wt" HEAD -q || { echo "worktree failed" > "$out"; exit 2; }
@@ -25,5 +25,5 @@ cd "$wt/$place"
 go test -vet=off -count=1 -timeout 30m -run 'TestSeeded' . 2>&1 | grep -E '^(--- FAIL|--- PASS|FAIL|ok|panic:)' | head -20
 rm -f "$wt/$place/$(basename $demo)"
 echo "--- 3. full suite with patch (demo removed)"
-/tmp/runsuite.sh "$wt"
+"$here/runsuite.sh" "$wt"
 } > "$out" 2>&1
